@@ -20,9 +20,42 @@ struct Views {
     struct TwV { refdom::RefWalker m; DOMTreeWalker* x = nullptr; SimFilter* f = nullptr; };
     struct LiV { refdom::RefTagList m; DOMNodeList* x = nullptr; };
     struct RgV { refdom::RefRange* m = nullptr; DOMRange* x = nullptr; Node* doc = nullptr; };
-    DomWorld& w; std::vector<ItV> its; std::vector<TwV> tws; std::vector<LiV> lis; std::vector<RgV> rgs;
+    struct XrV { DOMXPathResult* x = nullptr; std::vector<Node*> items; int type = 0; std::string expr; bool nestable = false; const char* firstStep = "*"; Node* ctx = nullptr; };      // an XPath result held across mutations (xerces-c gives snapshots / single nodes only)
+    DomWorld& w; std::vector<ItV> its; std::vector<TwV> tws; std::vector<LiV> lis; std::vector<RgV> rgs; std::vector<XrV> xrs;
     explicit Views(DomWorld& ww) : w(ww) {}
-    ~Views() { for (auto& i : its) { delete i.m; delete i.f; } for (auto& t : tws) delete t.f; for (auto& r : rgs) delete r.m; }
+    ~Views() { for (auto& i : its) { delete i.m; delete i.f; } for (auto& t : tws) delete t.f; for (auto& r : rgs) delete r.m; for (auto& x : xrs) if (x.x) x.x->release(); }
+
+    // ---- XPath: the subset xerces-c evaluates on a DOM (that of XML Schema selectors: [.//] step (/ step)*, unions; element results)
+    struct XpPath { bool fromRoot; bool desc; std::vector<const char*> steps; };
+    struct XpExpr { const char* text; std::vector<XpPath> alts; bool invalid; };
+    static const std::vector<XpExpr>& xpTable() {
+        static const std::vector<XpExpr> t = {
+            { "a", { { false, false, { "a" } } }, false }, { "*", { { false, false, { "*" } } }, false }, { "a/b", { { false, false, { "a", "b" } } }, false },
+            { "*/a", { { false, false, { "*", "a" } } }, false }, { ".//a", { { false, true, { "a" } } }, false }, { ".//*", { { false, true, { "*" } } }, false },
+            { "./b", { { false, false, { ".", "b" } } }, false }, { "a|b", { { false, false, { "a" } }, { false, false, { "b" } } }, false }, { ".//b/a", { { false, true, { "b", "a" } } }, false },
+            { "/root/a", { { true, false, { "root", "a" } } }, false }, { "e", { { false, false, { "e" } } }, false }, { ".//e|.//d", { { false, true, { "e" } }, { false, true, { "d" } } }, false },
+            { "*/*", { { false, false, { "*", "*" } } }, false }, { "/root/*/b", { { true, false, { "root", "*", "b" } } }, false }, { ".//c/*", { { false, true, { "c", "*" } } }, false },
+            { "a/", {}, true }, { "a b", {}, true } };
+        return t;
+    }
+    // reference evaluation; `ambiguous` is set when a Level 1 element whose name contains a colon meets a name test (XPath is defined on namespace-aware trees only)
+    static bool xpMatch(Node* e, const char* test, bool& ambiguous) {
+        if (test[0] == '*' && !test[1]) return true; std::u16string t = U(test);
+        if (e->hasNs) { size_t c = e->name.find(u':'); return e->ns.empty() && (c == std::u16string::npos ? e->name : e->name.substr(c + 1)) == t; }
+        if (e->name.find(u':') != std::u16string::npos) { ambiguous = true; return false; }
+        return e->name == t;
+    }
+    static void xpSubtree(Node* n, std::vector<Node*>& out) { if (n->type == refdom::ELEMENT || n->type == refdom::DOCUMENT) out.push_back(n); for (auto k : n->kids) if (k->type == refdom::ELEMENT) xpSubtree(k, out); }
+    static std::vector<Node*> xpEval(const XpExpr& ex, Node* ctx, bool& ambiguous) {
+        std::set<Node*> hit; Node* top = nullptr;
+        for (auto& p : ex.alts) {
+            Node* c = p.fromRoot ? docNode(ctx) : ctx; if (!top || p.fromRoot) top = c;
+            std::vector<Node*> cur; if (p.desc) xpSubtree(c, cur); else cur.push_back(c);
+            for (auto st : p.steps) { if (st[0] == '.' && !st[1]) continue; std::vector<Node*> nxt; std::set<Node*> seen; for (auto n : cur) for (auto k : n->kids) if (k->type == refdom::ELEMENT && xpMatch(k, st, ambiguous) && seen.insert(k).second) nxt.push_back(k); cur.swap(nxt); }
+            for (auto n : cur) hit.insert(n);
+        }
+        std::vector<Node*> order, out; if (top) xpSubtree(top, order); for (auto n : order) if (hit.count(n)) out.push_back(n); return out;      // document order
+    }
 
     static const unsigned* showTable() { static const unsigned t[] = { 0xFFFFFFFFu, 0x1u, 0x4u, 0x5u, 0xFFFFFFFEu, 0xC0u, 0x1Du, 0xFFFFFFFFu }; return t; }
     Node* rOf(const DOMNode* x, bool& known) const { known = true; if (!x) return nullptr; auto it = w.byX.find(x); if (it == w.byX.end()) { known = false; return nullptr; } return w.slots[it->second].r; }
@@ -35,6 +68,7 @@ struct Views {
         for (auto& t : tws) if (in(t.m.root) || in(t.m.cur)) return true;
         for (auto& l : lis) if (in(l.m.root)) return true;
         for (auto& r : rgs) if (!r.m->detached && (in(r.m->s.c) || in(r.m->e.c))) return true;
+        for (auto& x : xrs) for (auto n : x.items) if (in(n)) return true;
         return false;
     }
 
@@ -183,6 +217,46 @@ struct Views {
             if (cand.empty()) { if (x) return "view:get-element-by-id|getElementById('" + n8(val) + "') returned " + nmx(x) + " although no element of the document has an ID attribute with that value"; return ""; }
             if (cand.size() == 1 && cand[0]->root() == rd) { g_run.probe("id_lookup_determined"); if (x != w.xOf(cand[0])) return "view:get-element-by-id|getElementById('" + n8(val) + "') returned " + nmx(x) + ", the only element with that ID in the document tree is " + nm(cand[0]); }
             return "";      // several candidates, or one outside the document tree: the specification leaves the result open
+        }
+        if (k == "xpEval" || k == "xpRead") {
+            static const DOMXPathResult::ResultType types[] = { DOMXPathResult::ORDERED_NODE_SNAPSHOT_TYPE, DOMXPathResult::UNORDERED_NODE_SNAPSHOT_TYPE, DOMXPathResult::FIRST_ORDERED_NODE_TYPE, DOMXPathResult::ANY_UNORDERED_NODE_TYPE };
+            auto compare = [&](XrV& xr, const std::string& when) -> std::string {
+                std::string head = std::string("view:xpath-result|evaluate('") + xr.expr + "') " + when + ": ";
+                try {
+                    if (xr.type < 2) {
+                        XMLSize_t len = xr.x->getSnapshotLength(); std::vector<const DOMNode*> got2; for (XMLSize_t i = 0; i < len; i++) { if (!xr.x->snapshotItem(i)) return head + "snapshotItem(" + std::to_string(i) + ") is false below getSnapshotLength()"; got2.push_back(xr.x->getNodeValue()); }
+                        if (xr.x->snapshotItem(len)) return head + "snapshotItem(length) is true";
+                        std::vector<const DOMNode*> want2; for (auto n : xr.items) want2.push_back(w.xOf(n));
+                        std::string have, want; for (auto g : got2) have += nmx(g) + " "; for (auto n : xr.items) want += nm(n) + " ";
+                        if (xr.type == 1) { std::sort(got2.begin(), got2.end()); std::sort(want2.begin(), want2.end()); }
+                        if (got2 != want2) {
+                            // known deviation of the streaming matcher: it keeps ONE partial match per path; where two candidates for the first step of a './/x/y' path are
+                            // nested (x inside x), matches that belong to the inner one are lost. Classified as that finding only if the result merely lacks such nodes.
+                            bool onlyNestedLost = xr.nestable && got2.size() < want2.size(); std::set<const DOMNode*> gs(got2.begin(), got2.end()); if (gs.size() != got2.size()) onlyNestedLost = false; for (auto g : got2) if (std::find(want2.begin(), want2.end(), g) == want2.end()) onlyNestedLost = false;
+                            if (onlyNestedLost) for (auto n : xr.items) if (!gs.count(w.xOf(n))) { int firstStepAncestors = 0; bool amb = false; for (Node* a = n->parent; a && a != xr.ctx; a = a->parent) if (a->type == refdom::ELEMENT && xpMatch(a, xr.firstStep, amb)) firstStepAncestors++; if (firstStepAncestors < 2) onlyNestedLost = false; }
+                            return (onlyNestedLost ? std::string("view:xpath-nested-partial-match|evaluate('") + xr.expr + "') " + when + ": " : head) + "the snapshot holds [ " + have + "], XPath gives [ " + want + "]" + (xr.type == 0 ? " (document order)" : " (as a set)"); }
+                    } else {
+                        const DOMNode* g = xr.x->getNodeValue();
+                        if (xr.items.empty() ? g != nullptr : (xr.type == 2 ? g != w.xOf(xr.items[0]) : std::find_if(xr.items.begin(), xr.items.end(), [&](Node* n) { return w.xOf(n) == g; }) == xr.items.end())) return head + "the single-node result is " + nmx(g) + ", XPath gives " + (xr.items.empty() ? std::string("no node") : (xr.type == 2 ? "the first node in document order, " + nm(xr.items[0]) : std::string("one of ") + std::to_string(xr.items.size()) + " nodes"));
+                    }
+                } catch (const DOMException& e) { return head + "reading the result raised exception code " + std::to_string((int)e.code); }
+                return ""; };
+            if (k == "xpRead") { if (xrs.empty()) return ""; viewOps++; g_run.probe("vop:xpath.reread"); return compare(xrs[c % xrs.size()], "read again after later mutations (a snapshot does not change)"); }
+            if (!A || A->r->type != refdom::ELEMENT) return "";      // (xerces-c evaluates with element context nodes only: NOT_SUPPORTED_ERR otherwise, documented)
+            const XpExpr& ex = xpTable()[(size_t)(n + 14 * (mm / 4)) % xpTable().size()]; int ty = mm % 4; bool ambiguous = false; DOMDocument* d = docOf(A);
+            bool nestable = false; const char* firstStep = "*"; for (auto& pth : ex.alts) { size_t names = 0; for (auto st : pth.steps) if (!(st[0] == '.' && !st[1])) names++; if (pth.desc && names >= 2) { nestable = true; firstStep = pth.steps[0]; } }
+            if (nestable) ty &= 1;      // (paths that can hit the nested-partial-match finding are read as snapshots, where the finding can be told from anything else)
+            std::vector<Node*> want = ex.invalid ? std::vector<Node*>() : xpEval(ex, A->r, ambiguous); if (ex.invalid) v.add(51);      // DOMXPathException::INVALID_EXPRESSION_ERR
+            bool reuse = flag && !xrs.empty(); size_t slot = reuse ? c % xrs.size() : xrs.size(); DOMXPathResult* res = nullptr; std::u16string et = U(ex.text);
+            VTRY(res = d->evaluate((const XMLCh*)et.c_str(), A->x, nullptr, types[ty], reuse ? xrs[slot].x : nullptr));
+            std::string e = judge("xpath.evaluate", v, threw, got, forbidden); if (!e.empty() || !v.ok()) return e; viewOps++;
+            if (!res) return "view:xpath-result|evaluate('" + std::string(ex.text) + "') returned null";
+            if (reuse && res != xrs[slot].x) return "view:xpath-result|evaluate() with a result object to reuse returned a different object";
+            XrV xr; xr.x = res; xr.items = want; xr.type = ty; xr.expr = ex.text; xr.nestable = nestable; xr.firstStep = firstStep; xr.ctx = A->r;
+            if (ambiguous) { g_run.probe("xpath_ambiguous_level1_name"); if (reuse) { xrs[slot].x = nullptr; xrs.erase(xrs.begin() + (long)slot); } res->release(); return ""; }
+            std::string ce = compare(xr, "from " + nm(A->r)); if (!ce.empty()) { if (!reuse) res->release(); return ce; }
+            if (reuse) xrs[slot] = xr; else if (xrs.size() < 4) xrs.push_back(xr); else res->release();
+            return "";
         }
         if (k == "rgNew") {
             if (!A || rgs.size() >= 5) return ""; DOMDocument* d = docOf(A); Node* rd = A->r->type == refdom::DOCUMENT ? A->r : A->r->doc; RgV rv; VTRY(rv.x = d->createRange()); std::string e = judge("createRange", v, threw, got, forbidden); if (!e.empty()) return e;
